@@ -18,6 +18,7 @@ pub struct Ctx {
   pub assumptions: Vec<String>,
   pub coverage: serde_json::Map<String, J>,
   pub findings: Vec<Finding>,
+  pub sig_counts: std::collections::BTreeMap<String, u64>,
 }
 
 #[derive(Debug, Clone)]
@@ -62,6 +63,7 @@ impl Ctx {
       assumptions: vec![],
       coverage: serde_json::Map::new(),
       findings,
+      sig_counts: Default::default(),
     }
   }
   pub fn quick(&self) -> bool {
@@ -99,6 +101,7 @@ impl Ctx {
         return;
       }
     }
+    *self.sig_counts.entry(signatures.join("|")).or_insert(0) += 1;
     if self.violations.len() >= 25 {
       self.violations.push((message.to_string(), PathBuf::new()));
       return;
@@ -155,6 +158,9 @@ impl Ctx {
     }
     if extra > 0 {
       println!("  (+{} further violations not written out)", extra);
+    }
+    for (s, n) in &self.sig_counts {
+      println!("  signature {} x{}", s, n);
     }
     std::process::exit(1)
   }
